@@ -4,7 +4,7 @@
     [json/abstract_repr/backend.py]) and [Results] ([backend/results.py]).
     Instances are [PDict]s as everywhere in this development.  The last
     section is a small object-heap model of *where* [_from_state_amplitudes]
-    writes [_n_qudits] (the class, not the instance).  No proofs here. *)
+    writes [_n_qudits] (the instance; it used to be the class).  No proofs here. *)
 From Coq Require Import ZArith List Bool String.
 From Coq Require Import Uint63 FloatOps SpecFloat PrimFloat.
 From PV Require Import Model.Base Model.RtJson.
@@ -105,22 +105,25 @@ Definition read_attr (h : heap) (i : nat) (a : string) : option pv :=
 Definition new_local (h : heap) (d : kvs) : heap :=
   mkHeap (h_class h) (h_objs h ++ [d]).
 
-(** [StateRepr._from_state_amplitudes]:
-    [state = cls(eigenstates=...); cls._n_qudits = n_qudits]; then
-    [from_state_amplitudes] sets [obj._amplitudes] on the instance. *)
+(** [StateRepr._from_state_amplitudes] (since commit b3b580b8):
+    [state = cls(eigenstates=...); state._n_qudits = n_qudits]; then
+    [from_state_amplitudes] sets [obj._amplitudes], all on the instance. *)
+Definition staterepr_inst (eig amps : pv) (n : Z) : kvs :=
+  [("_eigenstates", eig); ("_amplitudes", amps); ("_n_qudits", PInt n)].
+
 Definition staterepr_new (h : heap) (eig amps : pv) : option heap :=
+  match first_key_len amps with
+  | Some n => Some (new_local h (staterepr_inst eig amps n))
+  | None => None
+  end.
+
+(** the behaviour before that commit, kept to state why the discipline
+    matters: [cls._n_qudits = n_qudits] *)
+Definition staterepr_new_on_class (h : heap) (eig amps : pv) : option heap :=
   match first_key_len amps with
   | Some n =>
       Some (mkHeap (set_key "_n_qudits" (PInt n) (h_class h))
                    (h_objs h ++ [[("_eigenstates", eig); ("_amplitudes", amps)]]))
-  | None => None
-  end.
-
-(** the repaired discipline: [state._n_qudits = n_qudits] *)
-Definition staterepr_new_fixed (h : heap) (eig amps : pv) : option heap :=
-  match first_key_len amps with
-  | Some n =>
-      Some (new_local h [("_eigenstates", eig); ("_amplitudes", amps); ("_n_qudits", PInt n)])
   | None => None
   end.
 
